@@ -42,6 +42,11 @@ async def work2(x, y=0):
     await f
 
 
+async def boom(*args, **kwargs):
+    ACTIVE.invocations.append(("boom", repr(args), repr(sorted(kwargs.items()))))
+    raise RuntimeError("kaputt-" + repr(args))
+
+
 def notcoro(*args, **kwargs):
     ACTIVE.invocations.append(("notcoro", repr(args), repr(kwargs)))
 
